@@ -601,10 +601,63 @@ def pyx_kernels():
         json.dump(js, fh, indent=1)
 
 
+def run_sites():
+    """Generated/StructC20Run.lean: the pointer walks with running offsets of the two
+    mutual-information routines resolved to `array[closed-form index]` (translate/c20_crun.py)"""
+    sys.path.insert(0, os.path.dirname(os.path.abspath(__file__)))
+    import c20_crun
+    out = ["/- GENERATED by translate/gen_C20.py (c20_crun.py) from the current /repo working tree — do not edit. -/",
+           "import Pyunicorn.Generated.StructC20",
+           "set_option linter.unusedVariables false",
+           "namespace Pyunicorn.Generated.StructC20Run",
+           "open Pyunicorn.Generated.StructC20 (Site)", ""]
+    for pre, pkg, wrapper, cfunc in ROUTINES:
+        if pre not in ("mi", "tmi"):
+            continue
+        sig, body, line0 = c_function(pkg, cfunc)
+        ptrs, scalars, types = c_params(sig)
+        for m in re.finditer(r"\b(unsigned int|int|long)\s+([^;(){}*]+);", body):
+            for d in m.group(2).split(","):
+                name = d.split("=")[0].strip()
+                if re.match(r"^\w+$", name):
+                    types[name] = m.group(1)
+        try:
+            sites, symbols, stores = c20_crun.analyse(body, line0, [p for p, _ in ptrs], scalars, types)
+        except c20_crun.Untranslatable as e:
+            raise Untranslatable(f"{cfunc}: {e}")
+        loopvars = []
+        for _, _, _, loops, _ in sites:
+            for l in loops:
+                if l[0] not in loopvars:
+                    loopvars.append(l[0])
+        params = [s for s in scalars if types.get(s) in INTBITS] + loopvars + symbols
+        out.append(f"/-! ### `{pkg}/_ext/src_numerics.c: {cfunc}` — pointer walks resolved -/")
+        out.append(f"/-- every pointer formation `p = a + e` (kind 1) and every dereference `*p` (kind 0) of "
+                   f"`{cfunc}`, with the running offsets and running pointers resolved to closed form in "
+                   f"the loop variables; `s_<p>` is the value read through `*<p>` inside an offset -/")
+        out.append(f"def {pre}_run_sites ({' '.join(params)} : Int) : List Site :=")
+        rows = []
+        for kind, arr, idx, loops, line in sites:
+            g = " ∧ ".join(f"({lo} ≤ {v} ∧ {v} {'<' if op == '<' else '≤'} {hi})"
+                           for v, lo, op, hi in loops) or "True"
+            rows.append(f"   -- src_numerics.c:{line}\n   ⟨{kind}, {lit(arr)}, 64, {idx}, [{idx}], {g}⟩")
+        out.append("  [\n" + ",\n".join(rows) + "]")
+        out.append(f"/-- values read from memory inside an offset expression -/")
+        out.append(f"def {pre}_run_symbols : List String := [" + ", ".join(lit(s) for s in symbols) + "]")
+        out.append(f"/-- every store through a pointer: (array, operator and right-hand side) -/")
+        out.append(f"def {pre}_stores : List (String × String) := [" +
+                   ", ".join(f"({lit(a)}, {lit(t)})" for a, t in stores) + "]")
+        out.append("")
+    out.append("end Pyunicorn.Generated.StructC20Run")
+    with open(os.path.join(os.path.dirname(OUT), "StructC20Run.lean"), "w") as fh:
+        fh.write("\n".join(out) + "\n")
+
+
 try:
     main()
     pyx_kernels()
     py_wrappers()
+    run_sites()
 except Untranslatable as e:
     print("gen_C20: cannot translate:", e, file=sys.stderr)
     sys.exit(1)
